@@ -2001,7 +2001,15 @@ def proximal_huber(space, gamma):
             out[mask] = gamma / (gamma + self.sigma) * x[mask]
 
             mask.ufuncs.logical_not(out=mask)
-            shrunk = x - self.sigma * x.ufuncs.sign()
+            if getattr(self.domain, 'is_real', True):
+                sign_x = x.ufuncs.sign()
+            else:
+                # Phase factor ``x / |x|`` (``sign`` of a complex number is
+                # the sign of its real part for NumPy < 2). Only used where
+                # ``|x| > gamma + sigma > 0``.
+                sign_x = x / self.domain.element(
+                    np.maximum(norm.asarray(), np.finfo(norm.dtype).tiny))
+            shrunk = x - self.sigma * sign_x
             out[mask] = shrunk[mask]
 
             return out
